@@ -46,10 +46,13 @@ type Engine struct {
 	pinMode      bool
 	noModelReuse bool
 	noBatch      bool
+	frozen       frozenHeap
 	verbose      bool
 }
 
 type noIntr struct{}
+
+var logw = os.Stderr
 
 func (e *Engine) intrinsicFor(fn *ssa.Function) intrinsic {
 	if v, ok := e.intrCache.Load(fn); ok {
@@ -461,7 +464,7 @@ func (e *Engine) runPath(h *ssa.Function, hr *HarnessResult, sol *Solver, prefix
 	ctx := NewCtx()
 	p := &Path{eng: e, ctx: ctx, sol: sol, res: hr, harness: h.Name(), prefix: prefix,
 		globals: map[*ssa.Global]Cell{}, initDone: map[*ssa.Package]bool{}, strConsts: map[string]*IntArrCell{},
-		unwind: e.unwind, userData: map[string]interface{}{}}
+		unwind: e.unwind, userData: map[string]interface{}{}, cloneMemo: map[interface{}]interface{}{}}
 	if e.concreteVec != nil {
 		p.concreteVec = e.concreteVec
 		p.useConcrete = true
